@@ -2,7 +2,7 @@
    definite: generic statement for Apply_Pmat(P, C, toGlobal=True) = P C P^T (as translated). *)
 From Coq Require Import Reals List Lra Psatz.
 From EFLib Require Import C11_MatR.
-From EFP Require Import Gen_Pmat C11_pmat.
+From EFP Require Import Gen_Pmat C11_wf.
 Import ListNotations.
 Open Scope R_scope.
 
